@@ -518,7 +518,17 @@ func (e *Enc) resolveName(sc *Scope, name string) (Val, bool) {
 					}
 				case *ssa.Phi:
 					if d.Comment == name {
-						return getv(d, false), true
+						// Go 1.22 per-iteration loop variables that are captured: the phi holds the
+						// address of the current iteration's copy of the variable
+						isCell := false
+						if _, isPtr := d.Type().Underlying().(*types.Pointer); isPtr {
+							for _, ed := range d.Edges {
+								if al, ok := ed.(*ssa.Alloc); ok && al.Comment == name {
+									isCell = true
+								}
+							}
+						}
+						return getv(d, isCell), true
 					}
 				}
 			}
